@@ -1155,7 +1155,7 @@ func gen(c *core.Ctx) error {
 		}
 	}
 	// 3. sampled longer histories
-	n := 1400
+	n := 1000
 	if !c.Quick() {
 		n = 12000
 	}
